@@ -1558,20 +1558,47 @@ Proof. apply dv_redim_length. Qed.
 Lemma ss_redim_val n s i : dv_get (ss_val (ss_redim n s)) i = if Nat.ltb i n then dv_get (ss_val s) i else 0.
 Proof. apply dv_redim_get. Qed.
 
+(* the index loop of reDim: positions size-1 .. 0, an index >= n is removed by moving the last one into its place *)
+Lemma redim_fold n : forall pre K,
+  Permutation (fold_left (fun l p => if Nat.leb n (nth p l 0%nat) then nl_remove_pos p l else l)
+                         (rev (seq 0 (length pre))) (pre ++ K))
+              (filter (fun i => Nat.ltb i n) pre ++ K).
+Proof.
+  induction pre as [|e pre' IH] using rev_ind; intros K; [reflexivity|].
+  rewrite app_length. cbn [length]. rewrite Nat.add_1_r, seq_S. cbn [plus]. rewrite rev_app_distr.
+  cbn [rev app fold_left]. rewrite <- app_assoc. cbn [app]. rewrite nth_middle.
+  rewrite filter_app. cbn [filter]. destruct (Nat.leb_spec n e) as [Hge|Hlt].
+  - replace (Nat.ltb e n) with false by (symmetry; apply Nat.ltb_ge; exact Hge). rewrite app_nil_r.
+    rewrite nl_remove_pos_g. destruct (list_rev_case K) as [E|(K' & lst & E)]; subst K.
+    + rewrite g_remove_last. rewrite <- (app_nil_r pre') at 2. apply IH.
+    + rewrite g_remove_mid. rewrite IH. apply Permutation_app_head. apply Permutation_cons_append.
+  - replace (Nat.ltb e n) with true by (symmetry; apply Nat.ltb_lt; exact Hlt).
+    rewrite IH. rewrite <- app_assoc. reflexivity.
+Qed.
+
+Lemma ss_redim_idx_perm : forall n s,
+  Permutation (ss_idx (ss_redim n s)) (filter (fun i => Nat.ltb i n) (ss_idx s)).
+Proof.
+  intros n s. cbn [ss_redim ss_idx]. pose proof (redim_fold n (ss_idx s) []) as H.
+  rewrite !app_nil_r in H. exact H.
+Qed.
+
 Lemma ss_redim_ok : forall eps n s, ss_ok eps s -> ss_ok eps (ss_redim n s).
 Proof.
   intros eps n s Hok Hs. cbn [ss_redim ss_setup] in Hs.
   destruct (ss_ok_elim _ _ Hok Hs) as (Hnd & Hdim & Hc).
-  unfold ss_redim. apply ss_ok_mk; [apply NoDup_filter'; exact Hnd | | | exact Hs].
-  - rewrite dv_redim_length. apply Forall_forall. intros k Hk. apply filter_In in Hk.
-    destruct Hk as [_ Hk]. apply Nat.ltb_lt in Hk. exact Hk.
+  pose proof (ss_redim_idx_perm n s) as Hp. cbn [ss_redim ss_idx] in Hp.
+  unfold ss_redim. apply ss_ok_mk; [| | | exact Hs].
+  - apply Permutation_sym in Hp. apply (Permutation_NoDup Hp). apply NoDup_filter'. exact Hnd.
+  - rewrite dv_redim_length. apply Forall_forall. intros k Hk. apply (Permutation_in _ Hp) in Hk.
+    apply filter_In in Hk. destruct Hk as [_ Hk]. apply Nat.ltb_lt in Hk. exact Hk.
   - intros k Hk Hnz. rewrite dv_redim_length in Hk. rewrite dv_redim_get in *.
     pose proof Hk as Hk'. apply Nat.ltb_lt in Hk'. rewrite Hk' in *.
     assert (Hkl : (k < length (ss_val s))%nat).
     { destruct (Nat.lt_ge_cases k (length (ss_val s))) as [H|H]; [exact H|].
       exfalso. apply Hnz. rewrite dv_get_overflow by exact H. reflexivity. }
     destruct (Hc k Hkl Hnz) as [H1|H1]; [|right; exact H1].
-    left. apply filter_In. split; [exact H1 | exact Hk'].
+    left. apply Permutation_sym in Hp. apply (Permutation_in _ Hp). apply filter_In. split; [exact H1 | exact Hk'].
 Qed.
 
 (* ------------------------------------------------------------------ C14: scalar products *)
@@ -2026,4 +2053,146 @@ Lemma ss_new_ok eps n : ss_ok eps (ss_new n).
 Proof.
   unfold ss_new. apply ss_ok_mk; [constructor | constructor |].
   intros i _ Hnz. exfalso. apply Hnz. rewrite dv_get_zero. reflexivity.
+Qed.
+
+(* ------------------------------------------------------------------ SVectorBase::remove(n, m) *)
+Lemma skipn_app_len {A} (a r : list A) k : skipn (length a + k) (a ++ r) = skipn k r.
+Proof. induction a as [|x a IH]; cbn; auto. Qed.
+
+Lemma firstn_app_exact {A} (a b : list A) : firstn (length a) (a ++ b) = a.
+Proof. induction a as [|x a IH]; cbn; [reflexivity | rewrite IH; reflexivity]. Qed.
+
+Lemma sv_remove_range_app (A B C : svec) m : (m + 1 = length A + length B)%nat ->
+  sv_remove_range (length A) m (A ++ B ++ C) =
+  A ++ (if Nat.leb (length B) (length C)
+        then rev (skipn (length C - length B) C) ++ firstn (length C - length B) C else rev C).
+Proof.
+  intros Hm. unfold sv_remove_range. cbv zeta. rewrite !app_length.
+  replace (m + 1 - length A)%nat with (length B) by lia.
+  replace (length A + (length B + length C) - (m + 1))%nat with (length C) by lia.
+  rewrite firstn_app_exact. f_equal. destruct (Nat.leb_spec (length B) (length C)) as [Hle|Hgt].
+  - rewrite Nat.min_l by exact Hle.
+    replace (length A + (length B + length C) - length B - length A - length B)%nat
+      with (length C - length B)%nat by lia.
+    replace (length A + (length B + length C) - length B)%nat
+      with (length A + (length B + (length C - length B)))%nat by lia.
+    replace (skipn (length A + length B) (A ++ B ++ C)) with (skipn (length A + (length B + 0)) (A ++ B ++ C))
+      by (f_equal; lia).
+    rewrite !skipn_app_len. reflexivity.
+  - rewrite Nat.min_r by lia.
+    replace (length A + (length B + length C) - length C)%nat with (length A + (length B + 0))%nat by lia.
+    rewrite !skipn_app_len. cbn [skipn].
+    replace (length A + (length B + length C) - length B - length A - length C)%nat with 0%nat by lia.
+    cbn [firstn]. apply app_nil_r.
+Qed.
+
+Lemma sv_remove_range_abc (A B C : svec) m : (m + 1 = length A + length B)%nat ->
+  Permutation (sv_remove_range (length A) m (A ++ B ++ C) ++ B) (A ++ B ++ C).
+Proof.
+  intros Hm. rewrite sv_remove_range_app by exact Hm.
+  set (X := if Nat.leb (length B) (length C)
+            then rev (skipn (length C - length B) C) ++ firstn (length C - length B) C else rev C).
+  assert (HX : Permutation X C).
+  { unfold X. destruct (Nat.leb (length B) (length C)); [|symmetry; apply Permutation_rev].
+    rewrite <- Permutation_rev. rewrite Permutation_app_comm. rewrite firstn_skipn. reflexivity. }
+  rewrite <- app_assoc. apply Permutation_app_head. rewrite HX. apply Permutation_app_comm.
+Qed.
+
+Lemma sv_remove_range_spec : forall n m v, (n <= m)%nat -> (m < length v)%nat ->
+  Permutation (sv_remove_range n m v ++ firstn (m + 1 - n) (skipn n v)) v /\
+  length (sv_remove_range n m v) = (length v - (m + 1 - n))%nat.
+Proof.
+  intros n m v Hn Hm.
+  set (A := firstn n v). set (B := firstn (m + 1 - n) (skipn n v)). set (C := skipn (m + 1 - n) (skipn n v)).
+  assert (Ev : v = A ++ B ++ C) by (unfold A, B, C; rewrite !firstn_skipn; reflexivity).
+  assert (HA : length A = n) by (unfold A; rewrite firstn_length; lia).
+  assert (HB : length B = (m + 1 - n)%nat) by (unfold B; rewrite firstn_length, skipn_length; lia).
+  clearbody A B C. subst v. subst n.
+  assert (HP : Permutation (sv_remove_range (length A) m (A ++ B ++ C) ++ B) (A ++ B ++ C))
+    by (apply sv_remove_range_abc; lia).
+  split; [exact HP|]. apply Permutation_length in HP. rewrite !app_length in *. lia.
+Qed.
+
+(* ------------------------------------------------------------------ SSVectorBase::operator=(SSVectorBase) *)
+Lemma fold_right_set_length (g : nat -> Q) (l : list nat) : forall d,
+  length (fold_right (fun i d => dv_set d i (g i)) d l) = length d.
+Proof. induction l as [|j r IH]; intros d; cbn [fold_right]; [reflexivity|]. rewrite dv_set_length. apply IH. Qed.
+
+Lemma fold_right_set_get (g : nat -> Q) (l : list nat) : forall d k, (k < length d)%nat ->
+  dv_get (fold_right (fun i d => dv_set d i (g i)) d l) k = if memb k l then g k else dv_get d k.
+Proof.
+  induction l as [|j r IH]; intros d k Hk; cbn [fold_right existsb]; [reflexivity|].
+  rewrite (Nat.eqb_sym k j). destruct (Nat.eqb_spec j k) as [E|E]; cbn [orb].
+  - subst. apply dv_get_set_same. rewrite fold_right_set_length. exact Hk.
+  - rewrite dv_get_set_other by exact E. apply IH. exact Hk.
+Qed.
+
+Lemma fold_left_set_length (g : nat -> Q) (l : list nat) : forall d,
+  length (fold_left (fun d i => dv_set d i (g i)) l d) = length d.
+Proof. induction l as [|j r IH]; intros d; cbn [fold_left]; [reflexivity|]. rewrite IH. apply dv_set_length. Qed.
+
+Lemma fold_left_set_get (g : nat -> Q) (l : list nat) : forall d k, (k < length d)%nat ->
+  dv_get (fold_left (fun d i => dv_set d i (g i)) l d) k = if memb k l then g k else dv_get d k.
+Proof.
+  induction l as [|j r IH]; intros d k Hk; cbn [fold_left existsb]; [reflexivity|].
+  rewrite IH by (rewrite dv_set_length; exact Hk). rewrite (Nat.eqb_sym k j).
+  destruct (Nat.eqb_spec j k) as [E|E]; cbn [orb].
+  - subst. rewrite dv_get_set_same by exact Hk. destruct (memb k r); reflexivity.
+  - rewrite dv_get_set_other by exact E. reflexivity.
+Qed.
+
+Lemma ss_assign_ss_dim eps rhs this : ss_dim (ss_assign_ss eps rhs this) = ss_dim rhs.
+Proof.
+  unfold ss_assign_ss, ss_dim. destruct (ss_setup rhs); cbn [ss_val].
+  - rewrite fold_right_set_length. apply dv_redim_length.
+  - rewrite fold_left_set_length. apply dv_redim_length.
+Qed.
+
+Lemma ss_assign_ss_setup eps rhs this : ss_setup (ss_assign_ss eps rhs this) = true.
+Proof. unfold ss_assign_ss. destruct (ss_setup rhs); reflexivity. Qed.
+
+(* the dense meaning for eps = 0; "ss_ok 0 this" is what makes clear() really zero the left operand *)
+Lemma ss_assign_ss_val0 : forall rhs this, ss_ok 0 rhs -> ss_ok 0 this ->
+  dv_eq (ss_val (ss_assign_ss 0 rhs this)) (ss_val rhs).
+Proof.
+  intros rhs this Hr Ht. apply dv_eq_of_get.
+  { fold (ss_dim (ss_assign_ss 0 rhs this)). apply ss_assign_ss_dim. }
+  intros k Hk. fold (ss_dim (ss_assign_ss 0 rhs this)) in Hk. rewrite ss_assign_ss_dim in Hk.
+  assert (Hbase : dv_get (dv_redim (ss_dim rhs) (ss_val (ss_clear this))) k == 0).
+  { rewrite dv_redim_get. destruct (Nat.ltb k (ss_dim rhs)); [apply ss_clear_val; exact Ht | reflexivity]. }
+  unfold ss_assign_ss. destruct (ss_setup rhs) eqn:Hs; cbn [ss_val].
+  - rewrite fold_right_set_get by (rewrite dv_redim_length; exact Hk).
+    destruct (memb k (ss_idx rhs)) eqn:Hm; [reflexivity|]. apply memb_notIn in Hm.
+    rewrite Hbase. symmetry. apply ss_ok0_notin; assumption.
+  - rewrite fold_left_set_get by (rewrite dv_redim_length; exact Hk).
+    match goal with |- (if ?c then _ else _) == _ => destruct c eqn:Hm end; [reflexivity|].
+    rewrite Hbase. apply memb_notIn in Hm. symmetry.
+    destruct (qle_bool (qabs (dv_get (ss_val rhs) k)) 0) eqn:Hq.
+    + apply qle_true in Hq. apply Qabs_le0. exact Hq.
+    + exfalso. apply Hm. apply filter_In. split; [apply in_seq; lia | rewrite Hq; reflexivity].
+Qed.
+
+Lemma ss_assign_ss_ok : forall eps rhs this, ss_ok eps rhs -> ss_ok eps this -> ss_ok eps (ss_assign_ss eps rhs this).
+Proof.
+  intros eps rhs this Hr Ht.
+  assert (Hbase : forall k, ~ dv_get (dv_redim (ss_dim rhs) (ss_val (ss_clear this))) k == 0 ->
+                            Qabs (dv_get (dv_redim (ss_dim rhs) (ss_val (ss_clear this))) k) <= eps).
+  { intros k Hnz. rewrite dv_redim_get in *. destruct (Nat.ltb k (ss_dim rhs)); [|exfalso; apply Hnz; reflexivity].
+    destruct (ss_ok_elim _ _ (ss_clear_ok eps this Ht) (ss_clear_setup this)) as (_ & _ & Hc).
+    rewrite ss_clear_idx in Hc.
+    destruct (Nat.lt_ge_cases k (length (ss_val (ss_clear this)))) as [Hk|Hk].
+    - destruct (Hc k Hk Hnz) as [[]|H]. exact H.
+    - exfalso. apply Hnz. rewrite dv_get_overflow by exact Hk. reflexivity. }
+  unfold ss_assign_ss. destruct (ss_setup rhs) eqn:Hs.
+  - destruct (ss_ok_elim _ _ Hr Hs) as (Hnd & Hdim & _).
+    apply ss_ok_mk; [exact Hnd | rewrite fold_right_set_length, dv_redim_length; exact Hdim |].
+    intros k Hk Hnz. rewrite fold_right_set_length in Hk. rewrite fold_right_set_get in * by exact Hk.
+    destruct (memb k (ss_idx rhs)) eqn:Hm; [left; apply memb_In; exact Hm | right; apply Hbase; exact Hnz].
+  - apply ss_ok_mk.
+    + apply NoDup_filter'. apply seq_NoDup.
+    + rewrite fold_left_set_length, dv_redim_length. apply Forall_forall. intros k Hk.
+      apply filter_In in Hk. destruct Hk as [Hk _]. apply in_seq in Hk. lia.
+    + intros k Hk Hnz. rewrite fold_left_set_length in Hk. rewrite fold_left_set_get in * by exact Hk.
+      match type of Hnz with ~ (if ?c then _ else _) == _ => destruct c eqn:Hm end;
+        [left; apply memb_In; exact Hm | right; apply Hbase; exact Hnz].
 Qed.
